@@ -10,4 +10,6 @@ let () =
   | "glob" -> Globmodel.run_glob ic
   | "report" -> Reportmodel.run_report ic
   | "vars" -> Varsmodel.run_vars ic
+  | "clean" -> Cleanmodel.run_clean ic
+  | "effects" -> Effectsmodel.run_effects ic
   | m -> prerr_endline ("unknown mode " ^ m); exit 2
